@@ -86,6 +86,25 @@ def run(ck):
         bad = T.t2_all_exits(hb, [0], dc, exits=okr) if dc and okr else ([0] if not dc else None)
         ck.verdict(bad is None, "4", "T2-all-exits", hb, "Ok=>dispatcher-asked", "every Ok return of %s has called the dispatcher's %s" % (q, meth), "%s can return Ok without calling the dispatcher's %s (a shortcut taken from bookkeeping kept beside the dispatcher): when that bookkeeping is stale the call silently does nothing - the fd stays in (or out of) the poller" % (q, meth), site=hb.where(), path=path_descr(hb, bad) if bad else None)
 
+    # .. and the dispatcher really asks the source: once its cell could be borrowed, every path through
+    # DispatcherInner::{register, reregister, unregister} calls the source's method of the same name (no "registered"
+    # flag kept beside the source decides to skip it: reregister() of a timer, a TransientSource or a composite source
+    # effectively registers, so such a flag goes stale and a later disable() silently does nothing)
+    for meth in ("register", "reregister", "unregister"):
+        q = "<RefCell<DispatcherInner> as EventDispatcher>::" + meth
+        db = ck.opt_body(q)
+        if db is None:
+            ck.anchor_missing("4", "T2-all-exits", q)
+            continue
+        sc_ = [c.bb for c in T.calls(db, name=meth, trait="EventSource", self_kind=("param", "alias")) if not db.is_cleanup(c.bb)]
+        tb_ = T.calls(db, name=("try_borrow_mut", "borrow_mut"), path="RefCell")
+        starts = []
+        for t_ in tb_:
+            ok_e, err_e, _d = T.result_split(db, t_.bb)
+            starts += [x for _, x in ok_e] if ok_e else [t_.to]
+        bad = T.t2_all_exits(db, starts or [0], sc_) if sc_ else [0]
+        ck.verdict(bad is None, "4", "T2-all-exits", db, "dispatcher-asked=>source-asked", "every path on which the dispatcher could be borrowed calls the source's %s" % meth, "%s can return without calling the source's %s although the dispatcher was not busy: the request is silently dropped (a disabled-then-updated timer keeps firing after the next disable())" % (q, meth), site=db.where(), path=path_descr(db, bad) if bad and bad != [0] else None)
+
     # ---- clause 5: shared necessary conditions ---------------------------------------------------------------
     from props import C14, C15, C01
 
@@ -96,3 +115,9 @@ def run(ck):
     common.import_results(ck, C01, "5", None, "3")
     # a child of a TransientSource that answered Disable stays silent across re-registrations of the wrapper (E3)
     common.import_e3(ck, "6", lambda inst: "asked to be disabled" in inst or "forwarded" in inst)
+    # ---- shared clauses demonstrated by seeding round 7 (the property broken from a distant module) --------------
+    from props import common as _c7
+    import importlib as _il
+    _m = lambda n: _il.import_module('props.' + n)
+    _c7.import_results(ck, _m("C05"), "5", "Timer", "3")  # a repeating timer re-arms itself (its self-disable is not swallowed by a returned Reregister)
+
